@@ -16,6 +16,13 @@ pub const PALETTE: &[&str] = &[
     "~a~", "~~a~~", "^a^", "||a||", "$a$", "$$a$$", "`a`", "``a``", "<b>", "</b>", "<img src=x>", "<br/>", "term\n\n: def",
     "```rust\nx\n```", "```math\nx\n```", "~~~ a b\"c<d\nx\n~~~", "    code", "<div>\nx\n</div>", "<!-- c -->", "---\nt: 1\n---",
     "a\n===", "a\n---", "* * *", "___",
+    // characters whose code point ends in the byte of an ASCII special (U+017E / U+307E: `~`, U+012A: `*`, U+015F: `_`,
+    // U+0160: backtick, U+013C: `<`, U+015B: `[`, U+017C: `|`, U+015E: `^`, U+0124: `$`, U+013A: `:`, U+0126: `&`) next to delimiters
+    "*mu\u{17e}*", "**\u{17e}ena**", "_\u{15f}_", "\u{307e}", "*\u{307e}\u{3059}*", "\u{12a}", "\u{160}", "\u{13c}", "\u{15b}", "\u{17c}", "\u{15e}", "\u{124}",
+    "\u{13a}", "\u{126}", "__\u{4e7e}__", "~\u{17e}~",
+    // a paragraph line directly before a table header, with an escaped pipe inside a code span
+    "see `a\\|b` below\n| h | i |\n|---|---|\n| c | d |\n", "x \\| y\n| h |\n|-|\n",
+    "ask ann@example.org or bob@example.org today", "a@b.c d@e.f g",
 ];
 
 pub const HOSTILE: &[&str] = &[
